@@ -1336,6 +1336,13 @@ class Sim:
         exc_name = None
         tb_tail = ""
         argv = [self.tool_filename] + list(sel.get("argv") or argv_of(sel))
+        if sel.get("user_main"):
+            # the user's own header, planted in the simulated file system and given as a main file
+            from . import usermain as _um
+
+            node = _Inode(_um.text(_tree_inventory(), sel["user_main"]).encode("utf-8"))
+            self.overlay.inodes.setdefault(_um.PATH, node)
+            self.overlay.dirs.add(os.path.dirname(_um.PATH))
         self.log("start", argv=argv[1:], stdout_mode=mode, stdout_bufsize=self.bufsize)
         # A simulated process is a fresh interpreter: module-level state of the standard library
         # that a previous run in this worker may have left behind is put back to its initial value.
@@ -1566,6 +1573,15 @@ class Sim:
         return res, data
 
 
+_INVENTORY = {}
+
+
+def _tree_inventory():
+    if "t" not in _INVENTORY:
+        _INVENTORY["t"] = _tree.Tree()
+    return _INVENTORY["t"]
+
+
 def argv_of(sel):
     """Command line for a selection (main files first: argparse cannot take positionals after an
     option that swallows a list).  `opt_order` permutes the options."""
@@ -1585,6 +1601,10 @@ def argv_of(sel):
     order = [k for k in sel.get("opt_order", []) if k in groups]
     order += [k for k in ("units", "constants", "noio", "version") if k in groups and k not in order]
     argv = list(sel.get("main_files") or [])
+    if sel.get("user_main"):
+        from . import usermain as _um
+
+        argv.append(_um.PATH)
     for k in order:
         argv += groups[k]
     return argv
